@@ -432,6 +432,10 @@ def run(c, facts):
     c.shared(R8, c08.r3_eager, 'C08.R3', facts)      # a parameter bound to the wrong argument hands a cast a value of another kind
     import c01 as _c01x
     c.run(lambda c: _c01x.r16_eval_panic(c, facts, rule='C04.R14'))
+    import c08 as _c08
+    c.run(lambda c: _c08.r14_same_winner(c, facts, rule='C04.R16'))      # the parameter inference typed is the one evaluation binds: otherwise a cast meets another kind
+    import c07 as _c07
+    c.run(lambda c: _c07.kind_table(c, facts, rule='C04.R15'))      # the checks the evaluator's casts rely on
     c.run(lambda c: r9_emit_total(c, facts))
     import c09
     R10 = c.rule('C04.R10', 'RECURSION-SAFE: a recursive program is either rejected or evaluated without running away: the cycle check is a fix-point that never cuts at an unresolved tag, and every cast that takes schema values takes the recursion marker (shared with C09.R3/R5)')
